@@ -36,7 +36,7 @@ class Job:
                  unwind=None, label="proof", defines=None, min_post=1, min_lis=0,
                  timeout=900, tiers=("quick", "thorough"), solver=None, note="",
                  replay=None, objbits=None, extra_cbmc=(), fallback=True, maxw=None,
-                 expect_fail=(), src=None, unwindset=None, cost=10, family=None, optional=False, canary_from=None, split=0, loop_contracts=True):
+                 expect_fail=(), src=None, unwindset=None, cost=10, family=None, optional=False, canary_from=None, split=0, loop_contracts=True, drop_checks=(), plain_loop_contracts=False):
         self.name = name; self.driver = driver; self.entry = entry
         self.enforce = enforce; self.replace = list(replace); self.mode = mode
         self.unwind = unwind; self.label = label; self.defines = dict(defines or {})
@@ -44,7 +44,7 @@ class Job:
         self.tiers = tiers; self.solver = solver; self.note = note; self.replay = replay
         self.objbits = objbits; self.extra_cbmc = list(extra_cbmc); self.fallback = fallback
         self.maxw = maxw; self.expect_fail = list(expect_fail); self.src = src
-        self.unwindset = unwindset; self.cost = cost; self.family = family; self.optional = optional; self.canary_from = canary_from; self.split = split; self.loop_contracts = loop_contracts
+        self.unwindset = unwindset; self.cost = cost; self.family = family; self.optional = optional; self.canary_from = canary_from; self.split = split; self.loop_contracts = loop_contracts; self.drop_checks = tuple(drop_checks); self.plain_loop_contracts = plain_loop_contracts
 
     def maxw_for(self, tier):
         if self.maxw is not None:
@@ -146,7 +146,7 @@ def instrument(job, inp, out, loop_contracts=True):
 
 
 def cbmc_cmd(job, binary, solver, props=None, trace=False, unwind=None, unwinding_assertions=True):
-    cmd = ["cbmc"] + MALLOC_FLAGS + CHECK_FLAGS + ["--json-ui"]
+    cmd = ["cbmc"] + MALLOC_FLAGS + [f for f in CHECK_FLAGS if f not in job.drop_checks] + ["--json-ui"]
     if job.mode != "contract":
         cmd.append("--drop-unused-functions")   # plain harness: only obligations reachable from the entry point
     if solver == "z3":
@@ -230,6 +230,17 @@ def execute(job, tier, builddir, maxw, solver, log):
             rc, out, err, secs, to = instrument(job, gb, igb, loop_contracts and job.loop_contracts)
             if rc != 0 or not os.path.exists(igb):
                 res["errors"].append("goto-instrument failed: " + (out + err)[-3000:])
+                return None
+            return igb
+        if job.plain_loop_contracts and loop_contracts:
+            # plain harness + loop contracts without DFCC: drop unreachable functions, then
+            # goto-instrument --apply-loop-contracts (which also makes statics nondeterministic)
+            dgb = base + suffix + ".d.gb"; igb = base + suffix + ".i.gb"
+            rc, out, err, secs, to = run(["goto-instrument", "--drop-unused-functions", gb, dgb], 300)
+            if rc == 0:
+                rc, out, err, secs, to = run(["goto-instrument", "--apply-loop-contracts", dgb, igb], 600)
+            if rc != 0 or not os.path.exists(igb):
+                res["errors"].append("goto-instrument (plain loop contracts) failed: " + (out + err)[-3000:])
                 return None
             return igb
         return gb
